@@ -14,6 +14,7 @@ import (
 	"net/http"
 	"os"
 	"path/filepath"
+	"runtime/debug"
 	"sort"
 	"strings"
 	"sync"
@@ -553,7 +554,7 @@ func (w *World) doCommand(actor string, idx int, op *Op) {
 	func() {
 		defer func() {
 			if p := recover(); p != nil {
-				res.Panic = fmt.Sprint(p)
+				res.Panic = fmt.Sprintf("%v | %s", p, shortStack())
 			}
 		}()
 		switch op.Kind {
@@ -730,6 +731,9 @@ func (w *World) doRequestID(actor string, idx int, op *Op, rid string) *Response
 		return resp
 	}
 	req.RequestURI = uri
+	if req.Body == nil {
+		req.Body = http.NoBody // a server-side request never has a nil body
+	}
 	host := op.Host
 	if host == "" {
 		host = "example.test"
@@ -773,7 +777,7 @@ func (w *World) doRequestID(actor string, idx int, op *Op, rid string) *Response
 				if p == http.ErrAbortHandler {
 					resp.Err = "aborted"
 				} else {
-					resp.Err = fmt.Sprintf("PANIC: %v", p)
+					resp.Err = fmt.Sprintf("PANIC: %v | %s", p, shortStack())
 				}
 			}
 		}()
@@ -973,6 +977,8 @@ type SvcState struct {
 	Allow    []string `json:"allow"`
 	TLS      bool     `json:"tls"`
 	Strip    bool     `json:"strip"`
+	Opts     string   `json:"-"` // raw options JSON (all service options)
+	TOpts    string   `json:"-"` // raw target options JSON
 }
 
 func ParseState(b []byte) ([]SvcState, error) {
@@ -1010,6 +1016,41 @@ func ParseState(b []byte) ([]SvcState, error) {
 		}
 		out = append(out, s)
 	}
+	var rawMaps []map[string]json.RawMessage
+	if json.Unmarshal(b, &rawMaps) == nil && len(rawMaps) == len(out) {
+		for i := range out {
+			// paths of generated files differ between routers: keep options
+			// comparable by dropping the run directory
+			out[i].Opts = string(rawMaps[i]["options"])
+			out[i].TOpts = string(rawMaps[i]["target_options"])
+		}
+	}
 	sort.Slice(out, func(i, j int) bool { return out[i].Name < out[j].Name })
 	return out, nil
+}
+
+// shortStack returns the repo frames of the current (panicking) stack.
+func shortStack() string {
+	var keep []string
+	lines := strings.Split(string(debug.Stack()), "\n")
+	for i := 0; i+1 < len(lines); i++ {
+		if strings.Contains(lines[i], "kamal-proxy/internal/") {
+			fn := lines[i]
+			if j := strings.LastIndex(fn, "/"); j >= 0 {
+				fn = fn[j+1:]
+			}
+			loc := strings.TrimSpace(lines[i+1])
+			if j := strings.LastIndex(loc, "/"); j >= 0 {
+				loc = loc[j+1:]
+			}
+			if j := strings.Index(loc, " "); j >= 0 {
+				loc = loc[:j]
+			}
+			keep = append(keep, fn+"@"+loc)
+			if len(keep) >= 5 {
+				break
+			}
+		}
+	}
+	return strings.Join(keep, " < ")
 }
